@@ -313,11 +313,12 @@ Print Assumptions c12_parse_linear_refuted.
 (* rq_to_sql does not validate the RQ it is given (finding C12-N3).  C16 owns the well-formedness predicate of an RQ
    (Model/RqWf.v, imported read-only) and its consequence: every id the back end looks up is declared, exactly once.
    Restated here because it is the PRECONDITION that turns N3 into a statement about inputs: the check classifies a
-   panic on a mutated RQ document as N3 only if the document is NOT rq_wf_lax (evaluated by C16's mirror
+   panic on a mutated RQ document as N3 only if the document is NOT rq_wf (evaluated by C16's mirror
    vplib/props/c16_wf.py, which C16 cross-validates against this definition on every run); a panic on a document that
-   satisfies it is a VIOLATION (or the narrower finding C12-N16: an operator name without the `std.` prefix). *)
-Theorem c12_rq_lookups_total_under_wf : forall q, rq_wf_lax q = true -> lookups_total q.
-Proof. exact wf_lax_lookups_total. Qed.
+   satisfies it is a VIOLATION (or one of the narrower findings C12-N16 / N17 / N18: operator shape, nameless referenced column,
+   aggregate partitioned by its own result -- what rq_wf does not speak about). *)
+Theorem c12_rq_lookups_total_under_wf : forall q, rq_wf q = true -> lookups_total q.
+Proof. intros q H. apply wf_lax_lookups_total. apply wf_implies_wf_lax. exact H. Qed.
 Print Assumptions c12_rq_lookups_total_under_wf.
 
 (* ------------------------------------------------------------------ nesting is unbounded in the input size *)
@@ -377,7 +378,7 @@ Example c12_ex_parse_retry : p 40 NNested (nested_named 2) = (Some [], 7) /\ len
 Proof. split; vm_compute; reflexivity. Qed.
 (* the recorded witness of C12-N3 (no table, an empty pipeline) and a dangling sort key do not satisfy the precondition *)
 Example c12_ex_n3_not_wf :
-  rq_wf_lax (mkRq [] (mkRel (KPipeline []) [])) = false /\
-  rq_wf_lax (mkRq [(mkTable 0 None (mkRel (KExternRef [[116]]) [RWildcard]))]
+  rq_wf (mkRq [] (mkRel (KPipeline []) [])) = false /\
+  rq_wf (mkRq [(mkTable 0 None (mkRel (KExternRef [[116]]) [RWildcard]))]
      (mkRel (KPipeline [(TFrom (mkTRef 0 [(RWildcard, 0)] (Some [116]))); (TTake (None, (Some ELit)) [] [(Asc, 77)]); (TSelect [0])]) [RWildcard]))%N = false.
 Proof. split; vm_compute; reflexivity. Qed.
